@@ -232,6 +232,53 @@ def body_fbzip(shard, *v):
             world.close()
 
 
+def plus10(x):
+    return x + 10
+
+
+def lt40(x):
+    return x < 40
+
+
+def pre_fbpart(shard, *v):
+    for x in v:
+        if not (0 <= x <= 3):
+            return False
+    return True
+
+
+def body_fbpart(shard, *v):
+    """source -> partition(2) -> flatten -> map(+10) -> filter(<40) -> unique -> back into source:
+    elements re-enter the partition while it is emitting."""
+    from engine.vloop import World
+    from engine.refsem import RefPipeline
+    from engine.pipeline import RealPipeline
+    vals = [pick(x, 0, 3) for x in v]
+    with untraced():
+        vd = Verdict()
+        kind = shard["node"]
+        params = {"n": 2} if kind != "sliding_window" else {"n": 2, "return_partial": False}
+        spec = [("source", {}, [5]), (kind, params, [0]), ("flatten", {}, [1]),
+                ("map", {"func": plus10}, [2]), ("filter", {"predicate": lt40}, [3]), ("unique", {}, [4])]
+        world = World()
+        real = RealPipeline([("source", {}, [])] + spec[1:], source_kwargs={"asynchronous": True})
+        real.nodes[5].connect(real.nodes[0])
+        ref = RefPipeline(spec)
+        try:
+            for x in vals:
+                world.emit(real.nodes[0], x)
+                ref.emit(0, x)
+            for i in range(6):
+                rv = [x for x, _ in real.seen(i)]
+                ev = [x for x, _ in ref.emitted[i]]
+                if not SP.values_equal(rv, ev):
+                    vd.add("wrong-output@feedback-%s" % kind)
+                    break
+            return vd.result()
+        finally:
+            world.close()
+
+
 # ------------------------------------------------------------------ slice: unbounded step
 def pre_slice_step(shard, i):
     return i >= 0
@@ -344,6 +391,9 @@ def obligations(tier):
                  "shard": {}, "types": ["int"] * (3 if q else 4), "budget": B})
     obls.append({"name": "B/feedback-zip/k=%d" % (4 if q else 5), "body": "body_fbzip", "pre": "pre_fbzip",
                  "shard": {}, "types": ["int"] * (2 * (4 if q else 5)), "budget": B})
+    for node in ("partition", "partition_unique", "sliding_window"):
+        obls.append({"name": "B/feedback-%s/k=%d" % (node, 4 if q else 5), "body": "body_fbpart", "pre": "pre_fbpart",
+                     "shard": {"node": node}, "types": ["int"] * (4 if q else 5), "budget": B})
     # D: slice unbounded step
     rng = [None, 0, 1, 2, 3]
     for s in rng:
